@@ -83,7 +83,8 @@ def make_fn(c, rng):
         lo, hi = -3.0, 3.0
     else:
         n = c['n_intervals']
-        knots = np.cumsum(np.concatenate([[0.0], rng.uniform(0.3, 1.0, n)]))
+        # (the grid starts at 0, at -2.5 or at 100: a spline is defined by its knots, not relative to the first one)
+        knots = np.cumsum(np.concatenate([[[0.0, -2.5, 100.0][c['seed'] % 3]], rng.uniform(0.3, 1.0, n)]))
         coeff = rng.standard_normal(n + c['degree'])
         f = tdt.Bspline(i, knots, c['degree'], coeff, dimension=dim)
         lo, hi = knots[0], knots[-1]
